@@ -513,17 +513,33 @@ impl<I: Ip> PeerMap<I> {
                     Self::Large(peer_map) => peer_map.insert(peer_map_key, peer),
                 }
 
-                if config.statistics.peer_clients && opt_removed_peer.is_none() {
-                    statistics_sender
-                        .try_send(StatisticsMessage::PeerAdded(request.peer_id))
-                        .expect("statistics channel should be unbounded");
+                if config.statistics.peer_clients {
+                    // A peer re-announcing from the same address with a new peer
+                    // id replaces the old id in the per-client tallies
+                    let opt_replaced_peer_id = opt_removed_peer
+                        .map(|peer| peer.peer_id)
+                        .filter(|peer_id| *peer_id != request.peer_id);
+
+                    if let Some(replaced_peer_id) = opt_replaced_peer_id {
+                        statistics_sender
+                            .try_send(StatisticsMessage::PeerRemoved(replaced_peer_id))
+                            .expect("statistics channel should be unbounded");
+                    }
+
+                    if opt_removed_peer.is_none() || opt_replaced_peer_id.is_some() {
+                        statistics_sender
+                            .try_send(StatisticsMessage::PeerAdded(request.peer_id))
+                            .expect("statistics channel should be unbounded");
+                    }
                 }
             }
             PeerStatus::Stopped => {
-                if config.statistics.peer_clients && opt_removed_peer.is_some() {
-                    statistics_sender
-                        .try_send(StatisticsMessage::PeerRemoved(request.peer_id))
-                        .expect("statistics channel should be unbounded");
+                if config.statistics.peer_clients {
+                    if let Some(removed_peer) = opt_removed_peer {
+                        statistics_sender
+                            .try_send(StatisticsMessage::PeerRemoved(removed_peer.peer_id))
+                            .expect("statistics channel should be unbounded");
+                    }
                 }
             }
         };
